@@ -341,6 +341,25 @@ Definition deliver_from (me : Z) (st : pst) (i : Z) (offer : option (Z * msg)) :
       end
     end.
 
+(* --- a sequence of calls at one party without channel switches (for the order theorems) ------- *)
+Inductive lcall := LDeliver (offer : option (Z * msg)) | LFrom (i : Z) (offer : option (Z * msg)).
+Definition dlv_of (r : dres) : list (Z * tagT * Z) := match r with RDeliver who tg v => [(who, tg, v)] | _ => [] end.
+Definition lstep (me : Z) (st : pst) (c : lcall) : pst * list (Z * tagT * Z) :=
+  match c with
+  | LDeliver off => let o := deliver me st off in (o_st o, dlv_of (o_res o))
+  | LFrom i off => let o := fst (deliver_from me st i off) in (o_st o, dlv_of (o_res o))
+  end.
+Fixpoint lrun (me : Z) (st : pst) (cs : list lcall) : pst * list (Z * tagT * Z) :=
+  match cs with
+  | [] => (st, [])
+  | c :: r => match lstep me st c with (st1, d1) => match lrun me st1 r with (st2, d2) => (st2, d1 ++ d2) end end
+  end.
+Definition who_of (d : Z * tagT * Z) : Z := fst (fst d).
+Definition id_of (d : Z * tagT * Z) : Z := fst (fst (snd (fst d))).
+Definition j_of (d : Z * tagT * Z) : Z := snd (fst (snd (fst d))).
+Definition s_of (d : Z * tagT * Z) : Z := snd (snd (fst d)).
+Definition from_sender (w : Z) (ds : list (Z * tagT * Z)) := filter (fun d => who_of d =? w) ds.
+
 (* --- network model: n parties, the set of Byzantine parties is  byz ------------------------ *)
 Variable byz : Z -> bool.
 
